@@ -5,6 +5,8 @@ ops:
   {"op": "build", "case": {...}, "parses": [{"kek": hex, "xor": [[offset, byte], ...], "cut": n|null}, ...]}
       -> {"export": ["ok", hex] | ["e", k, name], "built": [[uid, hmac_req, hmac_count, [cmd_obs..]], ...],
           "hdr": {...}, "cb": {...}, "parses": [parse_result..]}
+  {"op": "build_cfg", "case": {...}, "workdir": dir}   same record, the image is made by BootImageV21.load_from_config from a
+      configuration dictionary (the structure the BD / YAML front ends produce) derived from the case
   {"op": "cmd", "cmd": [...]}             -> {"export": [...], "obs": [...]}
   {"op": "parse_cmds", "data": hex}       -> ["ok", [obs..]] | ["e", k]
   {"op": "parse", "data": hex, "kek": hex}
@@ -83,7 +85,7 @@ def ensure_pool(keydir, names):
             ders.append(open(p, "rb").read())
         leaf_k = key(spec[-1][0], spec[-1][1])
         pub = leaf_k.public_key().public_numbers()
-        out[cn] = {"ders": ders, "keyfile": os.path.join(keydir, f"{spec[-1][0]}_{spec[-1][1]}.pem"),
+        out[cn] = {"ders": ders, "derfiles": [os.path.join(keydir, f"{cn}_{i}.der") for i in range(len(spec))], "keyfile": os.path.join(keydir, f"{spec[-1][0]}_{spec[-1][1]}.pem"),
                    "n": pub.n, "e": pub.e, "leaf_bits": spec[-1][1], "root_bits": spec[0][1]}
     return out
 
@@ -149,6 +151,42 @@ def parsed_obs(img):
             "mac": img.mac.hex(), "secs": [sec_obs(s) for s in img.boot_sections]}
 
 
+def cfg_cmd(c, workdir, counter):
+    """case command -> the {name: args} dictionary SB21Helper understands"""
+    k = c[0]
+    if k == 2:
+        data = bytes.fromhex(c[3])
+        args = {"address": c[1]}
+        if c[2]:
+            args["load_opt"] = c[2]
+        if data and len(data) % 4 == 0 and counter[0] % 2 == 0:
+            args["values"] = ",".join(format(int.from_bytes(data[i:i + 4], "little"), "08x") for i in range(0, len(data), 4))
+        else:
+            name = f"load_{counter[0]}.bin"
+            with open(os.path.join(workdir, name), "wb") as f:
+                f.write(data)
+            args["file"] = name
+        counter[0] += 1
+        return {"load": args}
+    if k == 3:
+        return {"fill": {"address": c[1], "pattern": c[2], "length": c[3]}}
+    if k == 4:
+        return {"jump": {"address": c[1], "argument": c[2], "spreg": c[4] if c[3] else None}}
+    if k == 7:
+        return {"erase": {"address": c[1], "length": c[2], "flags": c[3], "mem_opt": c[4]}}
+    if k == 9:
+        return {"enable": {"address": c[1], "size": c[2], "mem_opt": c[3]}}
+    if k == 10:
+        return {"programFuses": {"address": c[1], "load_opt": c[2], "pattern": c[3]}}
+    if k == 11:
+        return {"version_check": {"ver_type": c[1], "fw_version": c[2]}}
+    if k == 12:
+        return {"keystore_to_nv": {"mem_opt": c[2], "address": c[1]}}
+    if k == 13:
+        return {"keystore_from_nv": {"mem_opt": c[2], "address": c[1]}}
+    raise ValueError(k)
+
+
 def res(r, conv):
     if r[0] == "ok":
         return ["ok", conv(r[1])]
@@ -194,8 +232,30 @@ def handler(payload):
         if ch["keyfile"] not in sps:
             sps[ch["keyfile"]] = PlainFileSP(ch["keyfile"])
         img.signature_provider = sps[ch["keyfile"]]
+        keep_img["img"] = img
         data = img.export()
         return img, data
+
+    def build_cfg(case, workdir):
+        os.makedirs(workdir, exist_ok=True)
+        ch = pool[case["chain"]]
+        counter = [0]
+        config = {"options": {"flags": case["flags"], "buildNumber": case["build"], "productVersion": case["pv"],
+                              "componentVersion": case["cv"], "timestamp": case["ts"], "dek": case["dek"], "mac": case["mac"],
+                              "nonce": case["nonce"], "zeroPadding": bool(case["zero_padding"])},
+                  "containerKeyBlobEncryptionKey": case["kek"],
+                  "sections": [{"section_id": i, "commands": [cfg_cmd(c, workdir, counter) for c in s["cmds"]]}
+                               for i, s in enumerate(case["secs"])]}
+        if ch["keyfile"] not in sps:
+            sps[ch["keyfile"]] = PlainFileSP(ch["keyfile"])
+        img = BootImageV21.load_from_config(config, signature_provider=sps[ch["keyfile"]],
+                                            signing_certificate_file_paths=list(ch["derfiles"]),
+                                            root_key_certificate_paths=[ch["derfiles"][0]],
+                                            rkth_out_path=os.path.join(workdir, "hash.bin"), search_paths=[workdir])
+        keep_img["img"] = img
+        return img, img.export()
+
+    keep_img = {}
 
     def parse(data, kek):
         return parsed_obs(BootImageV21.parse(data, kek=kek))
@@ -203,17 +263,26 @@ def handler(payload):
     out = []
     for op in payload["ops"]:
         o = op["op"]
-        if o == "build":
-            keep = {}
+        if o in ("build", "build_cfg"):
+            keep_img.clear()
 
             def go():
-                img, data = build(op["case"])
-                keep["img"] = img
-                return data
+                if o == "build":
+                    return build(op["case"])[1]
+                return build_cfg(op["case"], op["workdir"])[1]
             r = guarded(go, seconds=60)
             rec = {"export": res(r, lambda d: d.hex())}
+            if "img" in keep_img and keep_img["img"].cert_block is not None:
+                cb = keep_img["img"].cert_block
+                ch = pool[op["case"]["chain"]]
+                try:
+                    rec["cb"] = {"ders": [c.export().hex() for c in cb.certificates], "rkht": cb._rkht.export().hex(),
+                                 "flags": int(cb.header.flags), "sig_size": int(cb.signature_size), "raw_size": int(cb.raw_size),
+                                 "n": str(ch["n"]), "e": ch["e"]}
+                except Exception:  # noqa
+                    pass
             if r[0] == "ok":
-                img, data = keep["img"], r[1]
+                img, data = keep_img["img"], r[1]
                 h = img.header
                 cb = img.cert_block
                 rec["built"] = [sec_obs(s) + [int(s.hmac_count)] for s in img.boot_sections]
@@ -221,9 +290,6 @@ def handler(payload):
                 rec["hdr"] = {"image_blocks": int(h.image_blocks), "first_boot_tag_block": int(h.first_boot_tag_block),
                               "max_mac": int(h.max_section_mac_count), "first_boot_section_id": int(h.first_boot_section_id)}
                 ch = pool[op["case"]["chain"]]
-                rec["cb"] = {"ders": [c.export().hex() for c in cb.certificates], "rkht": cb._rkht.export().hex(),
-                             "flags": int(cb.header.flags), "sig_size": int(cb.signature_size), "raw_size": int(cb.raw_size),
-                             "export": cb.export().hex(), "n": str(ch["n"]), "e": ch["e"]}
                 prs = []
                 for p in op.get("parses", []):
                     d = bytearray(data)
